@@ -18,6 +18,35 @@ use std::time::{Duration, Instant};
 
 const NAMES: [&str; 7] = ["a.txt", "b.txt", "new.txt", "in.txt", "sub/c.txt", "sub2/c.txt", ".a.txt.tmp"];
 
+/// bounded wait for an event that MUST arrive (only a failing run ever waits that long)
+const MUST_MS: u64 = 8000;
+/// how long a notification that must NOT arrive is waited for (reported, never a verdict by itself
+/// unless the model predicts silence: then silence is what the unchanged code always gives)
+const QUIET_MS: u64 = 250;
+/// stop after this many failures (each costs a MUST_MS time-out)
+const MAX_FAILS: usize = 6;
+
+/// a scenario that does not finish is a finding too (deadlock): a watchdog reports it and ends the process
+const HANG_MS: u64 = 60_000;
+static CURRENT: std::sync::Mutex<Option<(String, Instant)>> = std::sync::Mutex::new(None);
+
+fn begin(name: &str) {
+    *CURRENT.lock().unwrap() = Some((name.to_string(), Instant::now()));
+}
+
+fn start_watchdog() {
+    std::thread::spawn(|| loop {
+        std::thread::sleep(Duration::from_millis(500));
+        let cur = CURRENT.lock().unwrap().clone();
+        if let Some((name, t0)) = cur {
+            if t0.elapsed() > Duration::from_millis(HANG_MS) {
+                println!("wfs\t{}\tFAIL\thang: the scenario did not finish within {} s (deadlock between a Notifier call and the watcher thread?)", name, HANG_MS / 1000);
+                std::process::exit(3);
+            }
+        }
+    });
+}
+
 fn wait_until(ms: u64, mut f: impl FnMut() -> bool) -> bool {
     let t0 = Instant::now();
     loop {
@@ -51,6 +80,7 @@ fn env_state(env: &Environment) -> Vec<String> {
 fn apply(op: &str, w: &Path, out: &Path) {
     match op {
         "write" => fs::write(w.join("a.txt"), "a2").unwrap(),
+        "write-nested" => fs::write(w.join("sub/c.txt"), "c2").unwrap(),
         "create" => fs::write(w.join("new.txt"), "n1").unwrap(),
         "delete" => fs::remove_file(w.join("b.txt")).unwrap(),
         "rename-inside" => fs::rename(w.join("b.txt"), w.join("new.txt")).unwrap(),
@@ -72,6 +102,7 @@ fn apply(op: &str, w: &Path, out: &Path) {
 }
 
 fn main() {
+    start_watchdog();
     let base: PathBuf = std::env::temp_dir().join(format!("c20wfs-{}", std::process::id()));
     let _ = fs::remove_dir_all(&base);
     fs::create_dir_all(&base).unwrap();
@@ -95,7 +126,7 @@ fn main() {
     }
 
     let ops = [
-        "write", "create", "delete", "rename-inside", "rename-out", "rename-in", "rename-dir", "rename-dir-out",
+        "write", "write-nested", "create", "delete", "rename-inside", "rename-out", "rename-in", "rename-dir", "rename-dir-out",
         "atomic-save", "move-root", "touch",
     ];
     let mut case_no = 0;
@@ -104,6 +135,7 @@ fn main() {
     for (mode, fast, persistent) in [("full", false, false), ("fast", true, false), ("persistent", false, true)] {
         for op in ops {
             case_no += 1;
+            begin(&format!("{}-{}", op, mode));
             let root = base.join(format!("case{}", case_no));
             let (w, out) = (root.join("w"), root.join("out"));
             fs::create_dir_all(w.join("sub")).unwrap();
@@ -138,7 +170,7 @@ fn main() {
             let n_before = notified.load(Ordering::SeqCst);
 
             apply(op, &w, &out);
-            let got_note = wait_until(if op == "touch" { 300 } else { 3000 }, || notified.load(Ordering::SeqCst) > n_before);
+            let got_note = wait_until(if op == "touch" { 300 } else { MUST_MS }, || notified.load(Ordering::SeqCst) > n_before);
             // let the remaining events of the same change arrive (rename = From + To + Both)
             std::thread::sleep(Duration::from_millis(40));
             let want = disk_state(&w);
@@ -161,7 +193,7 @@ fn main() {
                     fails.set(fails.get() + 1);
                 }
             }
-            if fails.get() >= 9 {
+            if fails.get() >= MAX_FAILS {
                 println!("wfs\tremaining-cases\tinfo\tskipped after {} failures", fails.get());
                 fs::remove_dir_all(&base).ok();
                 return;
@@ -186,6 +218,7 @@ fn main() {
         for site in ["creator", "outside"] {
             for (sname, ops) in &seqs {
                 case_no += 1;
+                begin(&format!("seq-{}-{}-{}", mode, site, sname));
                 let root = base.join(format!("case{}", case_no));
                 let (w, out) = (root.join("w"), root.join("out"));
                 fs::create_dir_all(w.join("sub")).unwrap();
@@ -242,7 +275,7 @@ fn main() {
                     let n_before = notified.load(Ordering::SeqCst);
                     let c_before = creates.load(Ordering::SeqCst);
                     apply(op, &w, &out);
-                    let got_note = wait_until(if documented_loss { 300 } else { 3000 }, || notified.load(Ordering::SeqCst) > n_before);
+                    let got_note = wait_until(if documented_loss { 300 } else { MUST_MS }, || notified.load(Ordering::SeqCst) > n_before);
                     std::thread::sleep(Duration::from_millis(40));
                     let want = disk_state(&w);
                     let after = env_state(&reloader.acquire_env().unwrap());
@@ -251,7 +284,7 @@ fn main() {
                         continue;
                     }
                     if !got_note {
-                        problem = Some(format!("step{}:{}: no notification within 3 s (watcher gone?)", k + 1, op));
+                        problem = Some(format!("step{}:{}: no notification within {} ms (watcher gone?)", k + 1, op, MUST_MS));
                     } else if after != want {
                         problem = Some(format!("step{}:{}: next acquire does not reflect the disk env={:?} disk={:?}", k + 1, op, after, want));
                     } else if (fast && c_after != c_before) || (!fast && c_after <= c_before) {
@@ -265,7 +298,7 @@ fn main() {
                         fails.set(fails.get() + 1);
                     }
                 }
-                if fails.get() >= 9 {
+                if fails.get() >= MAX_FAILS {
                     println!("wfs\tremaining-cases\tinfo\tskipped after {} failures", fails.get());
                     fs::remove_dir_all(&base).ok();
                     return;
@@ -281,6 +314,7 @@ fn main() {
     {
         use minijinja_autoreload::verif_hooks::{set_yield, Point};
         case_no += 1;
+        begin("race-fast-switched-on-during-reload");
         let root = base.join(format!("case{}", case_no));
         let w = root.join("w");
         fs::create_dir_all(&w).unwrap();
@@ -311,7 +345,7 @@ fn main() {
         std::thread::sleep(Duration::from_millis(30));
         let n_before = notified.load(Ordering::SeqCst);
         fs::write(w.join("a.txt"), "a2").unwrap();
-        let got_note = wait_until(1500, || notified.load(Ordering::SeqCst) > n_before);
+        let got_note = wait_until(MUST_MS, || notified.load(Ordering::SeqCst) > n_before);
         std::thread::sleep(Duration::from_millis(40));
         let after = env_state(&reloader.acquire_env().unwrap());
         let ok = got_note && after == disk_state(&w);
@@ -320,5 +354,386 @@ fn main() {
             if ok { "ok" } else { "FAIL" }, got_note, after[0], disk_state(&w)[0]
         );
     }
+    // ---- several watched paths / non-recursive / unwatch / bursts / contention on the notifier mutex
+    extra_scenarios(&base, &mut case_no);
+
+    // ---- the watcher's LIFETIME against the Lean model: operation sequences with persistent_watch and
+    //      fast reload toggled at run time (given on the command line as a file of `site ops` lines; the
+    //      expectation of every file change comes from the model: `X+` = a notification must arrive,
+    //      `X-` = the model says nothing is watching)
+    if let Some(path) = std::env::args().nth(1) {
+        for line in fs::read_to_string(&path).unwrap_or_default().lines() {
+            let f: Vec<&str> = line.split_whitespace().collect();
+            if f.len() == 2 {
+                case_no += 1;
+                run_sequence(&base, case_no, f[0], f[1]);
+            }
+        }
+    }
     fs::remove_dir_all(&base).ok();
+}
+
+struct Case {
+    root: PathBuf,
+    w: PathBuf,
+    inc: PathBuf,
+    creates: Arc<AtomicUsize>,
+    notified: Arc<AtomicUsize>,
+    reloader: Arc<AutoReloader>,
+}
+
+/// `w` (a.txt, b.txt, sub/c.txt) and `inc` (x.txt); the loader looks into both
+fn make_case(base: &Path, case_no: usize, setup: impl Fn(&minijinja_autoreload::Notifier, &Path, &Path) + Send + Sync + 'static) -> Case {
+    let root = base.join(format!("case{}", case_no));
+    let (w, inc) = (root.join("w"), root.join("inc"));
+    fs::create_dir_all(w.join("sub")).unwrap();
+    fs::create_dir_all(&inc).unwrap();
+    fs::write(w.join("a.txt"), "a1").unwrap();
+    fs::write(w.join("b.txt"), "b1").unwrap();
+    fs::write(w.join("sub/c.txt"), "c1").unwrap();
+    fs::write(inc.join("x.txt"), "x1").unwrap();
+    let creates = Arc::new(AtomicUsize::new(0));
+    let (c2, w2, i2) = (creates.clone(), w.clone(), inc.clone());
+    let reloader = Arc::new(AutoReloader::new(move |n| {
+        c2.fetch_add(1, Ordering::SeqCst);
+        let mut env = Environment::new();
+        let (w3, i3) = (w2.clone(), i2.clone());
+        env.set_loader(move |name| {
+            for dir in [&w3, &i3] {
+                if let Ok(s) = fs::read_to_string(dir.join(name)) {
+                    return Ok(Some(s));
+                }
+            }
+            Ok(None)
+        });
+        setup(&n, &w2, &i2);
+        Ok(env)
+    }));
+    let notified = Arc::new(AtomicUsize::new(0));
+    let n2 = notified.clone();
+    reloader.notifier().set_on_should_reload_callback(move || {
+        n2.fetch_add(1, Ordering::SeqCst);
+    });
+    Case { root, w, inc, creates, notified, reloader }
+}
+
+const NAMES2: [&str; 4] = ["a.txt", "b.txt", "sub/c.txt", "x.txt"];
+
+impl Case {
+    fn disk(&self) -> Vec<String> {
+        NAMES2
+            .iter()
+            .map(|n| fs::read_to_string(self.w.join(n)).or_else(|_| fs::read_to_string(self.inc.join(n))).unwrap_or_else(|_| "<none>".into()))
+            .collect()
+    }
+    fn env(&self) -> Vec<String> {
+        let env = self.reloader.acquire_env().unwrap();
+        NAMES2
+            .iter()
+            .map(|n| match env.get_template(n) {
+                Ok(t) => t.render(()).unwrap_or_else(|e| format!("<render {:?}>", e.kind())),
+                Err(e) if e.kind() == ErrorKind::TemplateNotFound => "<none>".into(),
+                Err(e) => format!("<error {:?}>", e.kind()),
+            })
+            .collect()
+    }
+    /// a change that must be noticed: wait for the notification (bounded), then the next acquire must show the disk
+    fn change_must_be_served(&self, what: &str, change: impl FnOnce()) -> Result<(), String> {
+        let n_before = self.notified.load(Ordering::SeqCst);
+        change();
+        if !wait_until(MUST_MS, || self.notified.load(Ordering::SeqCst) > n_before) {
+            return Err(format!("{}: no notification within {} ms", what, MUST_MS));
+        }
+        let (want, got) = (self.disk(), self.env());
+        if got != want {
+            return Err(format!("{}: next acquire does not reflect the disk env={:?} disk={:?}", what, got, want));
+        }
+        Ok(())
+    }
+}
+
+fn report(name: &str, r: Result<(), String>) {
+    match r {
+        Ok(()) => println!("wfs\t{}\tok\t-", name),
+        Err(e) => println!("wfs\t{}\tFAIL\t{}", name, e),
+    }
+}
+
+fn extra_scenarios(base: &Path, case_no: &mut usize) {
+    for (mode, fast, persistent) in [("full", false, false), ("fast", true, false), ("persistent", false, true)] {
+        // (1) TWO watched paths registered by the creator: a change under either must be served, the
+        //     first-registered one first, and again after a reload
+        *case_no += 1;
+        begin(&format!("two-paths-{}", mode));
+        let c = make_case(base, *case_no, move |n, w, inc| {
+            n.set_fast_reload(fast);
+            n.persistent_watch(persistent);
+            n.watch_path(w, true);
+            n.watch_path(inc, true);
+        });
+        let r = (|| {
+            if c.env() != c.disk() {
+                return Err("first acquire does not reflect the disk".to_string());
+            }
+            c.change_must_be_served("change under the first registered path", || fs::write(c.w.join("a.txt"), "a2").unwrap())?;
+            c.change_must_be_served("change under the second registered path", || fs::write(c.inc.join("x.txt"), "x2").unwrap())?;
+            c.change_must_be_served("nested change under the first path", || fs::write(c.w.join("sub/c.txt"), "c2").unwrap())?;
+            c.change_must_be_served("second change under the first path", || fs::write(c.w.join("b.txt"), "b2").unwrap())
+        })();
+        report(&format!("two-paths-{}", mode), r);
+
+        // (2) non-recursive registration: a change directly under the path must be served
+        *case_no += 1;
+        begin(&format!("non-recursive-{}", mode));
+        let c = make_case(base, *case_no, move |n, w, _| {
+            n.set_fast_reload(fast);
+            n.persistent_watch(persistent);
+            n.watch_path(w, false);
+        });
+        let r = (|| {
+            if c.env() != c.disk() {
+                return Err("first acquire does not reflect the disk".to_string());
+            }
+            c.change_must_be_served("top-level change, non-recursive watch", || fs::write(c.w.join("a.txt"), "a2").unwrap())?;
+            c.change_must_be_served("top-level create, non-recursive watch", || fs::write(c.w.join("b.txt"), "b2").unwrap())
+        })();
+        report(&format!("non-recursive-{}", mode), r);
+
+        // (3) bursts: several events for one save, and the NEXT change right after the acquire (no pause):
+        //     it must be noticed as well (nothing may be swallowed as "part of the same burst")
+        *case_no += 1;
+        begin(&format!("burst-{}", mode));
+        let c = make_case(base, *case_no, move |n, w, _| {
+            n.set_fast_reload(fast);
+            n.persistent_watch(persistent);
+            n.watch_path(w, true);
+        });
+        let r = (|| {
+            if c.env() != c.disk() {
+                return Err("first acquire does not reflect the disk".to_string());
+            }
+            c.change_must_be_served("burst of writes + atomic save", || {
+                for k in 0..5 {
+                    fs::write(c.w.join("a.txt"), format!("a-burst{}", k)).unwrap();
+                }
+                fs::write(c.w.join(".a.txt.tmp"), "a-saved").unwrap();
+                fs::rename(c.w.join(".a.txt.tmp"), c.w.join("a.txt")).unwrap();
+            })?;
+            for k in 0..3 {
+                c.change_must_be_served(&format!("change {} right after the acquire that served the burst", k), || {
+                    fs::write(c.w.join("b.txt"), format!("b-after{}", k)).unwrap()
+                })?;
+            }
+            Ok(())
+        })();
+        report(&format!("burst-{}", mode), r);
+    }
+
+    // (4) unwatch_path of ONE path keeps the other watched (persistent watcher registered from outside,
+    //     and fast reload with registration in the creator)
+    for (mode, fast, persistent) in [("fast", true, false), ("persistent", false, true)] {
+        *case_no += 1;
+        begin(&format!("unwatch-one-of-two-{}", mode));
+        let c = make_case(base, *case_no, move |n, w, inc| {
+            n.set_fast_reload(fast);
+            n.persistent_watch(persistent);
+            n.watch_path(w, true);
+            n.watch_path(inc, true);
+        });
+        let r = (|| {
+            if c.env() != c.disk() {
+                return Err("first acquire does not reflect the disk".to_string());
+            }
+            c.reloader.notifier().unwatch_path(&c.inc);
+            c.change_must_be_served("change under the path that is still watched", || fs::write(c.w.join("a.txt"), "a2").unwrap())?;
+            c.change_must_be_served("second change under it", || fs::write(c.w.join("b.txt"), "b2").unwrap())
+        })();
+        report(&format!("unwatch-one-of-two-{}", mode), r);
+    }
+
+    // (4b) the registration calls go into the watcher (they wait for its thread) while that thread is
+    //      delivering events (it takes the notifier mutex): neither may wait for the other for ever.
+    //      File changes keep coming from a background thread while the paths are registered again and
+    //      again (what a creator does on every reload with persistent_watch / what an outside thread
+    //      does), with reloads in between.  Completion is an event that must happen (watchdog).
+    for (mode, fast, persistent) in [("persistent", false, true), ("fast", true, false), ("full", false, false)] {
+        *case_no += 1;
+        begin(&format!("register-while-events-flow-{}", mode));
+        let c = make_case(base, *case_no, move |n, w, inc| {
+            n.set_fast_reload(fast);
+            n.persistent_watch(persistent);
+            n.watch_path(w, true);
+            n.watch_path(inc, true);
+        });
+        let stop = Arc::new(std::sync::atomic::AtomicBool::new(false));
+        let (s2, w2) = (stop.clone(), c.w.clone());
+        let writer = std::thread::spawn(move || {
+            let mut k = 0u64;
+            while !s2.load(Ordering::SeqCst) {
+                k += 1;
+                fs::write(w2.join("b.txt"), format!("b-flow{}", k)).unwrap();
+                if k % 8 == 0 {
+                    std::thread::sleep(Duration::from_millis(1));
+                }
+            }
+        });
+        let r = (|| {
+            for round in 0..150 {
+                c.reloader.notifier().watch_path(&c.w, true);
+                c.reloader.notifier().watch_path(&c.inc, true);
+                if round % 4 == 0 {
+                    c.reloader.notifier().request_reload();
+                }
+                drop(c.reloader.acquire_env().unwrap());
+            }
+            stop.store(true, Ordering::SeqCst);
+            writer.join().unwrap();
+            // quiescent again: one more change must be served
+            c.change_must_be_served("change after the registrations", || fs::write(c.w.join("a.txt"), "a-final").unwrap())
+        })();
+        stop.store(true, Ordering::SeqCst);
+        report(&format!("register-while-events-flow-{}", mode), r);
+    }
+
+    // (5) contention on the notifier mutex: the freshness callback (user code, "usually stats files") runs
+    //     UNDER it.  A file change that is reported meanwhile has to wait for the mutex; it must not be
+    //     dropped.  (the sleep only gives the watcher thread time to get there; every wait that decides
+    //     the verdict is for an event that must happen)
+    for (mode, fast) in [("full", false), ("fast", true)] {
+        *case_no += 1;
+        begin(&format!("change-while-notifier-mutex-held-{}", mode));
+        let c = make_case(base, *case_no, move |n, w, _| {
+            n.set_fast_reload(fast);
+            n.watch_path(w, true);
+        });
+        let gate = Arc::new((std::sync::Mutex::new(0u8), std::sync::Condvar::new()));
+        let g2 = gate.clone();
+        c.reloader.notifier().set_callback(move || {
+            let (m, cv) = &*g2;
+            let mut g = m.lock().unwrap();
+            if *g == 1 {
+                *g = 2;
+                cv.notify_all();
+                while *g != 3 {
+                    g = cv.wait(g).unwrap();
+                }
+            }
+            false
+        });
+        let r = (|| {
+            if c.env() != c.disk() {
+                return Err("first acquire does not reflect the disk".to_string());
+            }
+            *gate.0.lock().unwrap() = 1;
+            let r1 = c.reloader.clone();
+            let t1 = std::thread::spawn(move || drop(r1.acquire_env().unwrap()));
+            {
+                let (m, cv) = &*gate;
+                let mut g = m.lock().unwrap();
+                let deadline = Instant::now() + Duration::from_millis(MUST_MS);
+                while *g != 2 {
+                    let now = Instant::now();
+                    if now >= deadline {
+                        *g = 3;
+                        cv.notify_all();
+                        return Err("the freshness callback was not polled".to_string());
+                    }
+                    g = cv.wait_timeout(g, deadline - now).unwrap().0;
+                }
+            }
+            let n_before = c.notified.load(Ordering::SeqCst);
+            fs::write(c.w.join("a.txt"), "a-contended").unwrap();
+            std::thread::sleep(Duration::from_millis(150));
+            {
+                let (m, cv) = &*gate;
+                *m.lock().unwrap() = 3;
+                cv.notify_all();
+            }
+            t1.join().unwrap();
+            if !wait_until(MUST_MS, || c.notified.load(Ordering::SeqCst) > n_before) {
+                return Err("no notification for a change reported while the notifier mutex was held".to_string());
+            }
+            let (want, got) = (c.disk(), c.env());
+            if got != want {
+                return Err(format!("change reported while the notifier mutex was held is not served: env={:?} disk={:?}", got, want));
+            }
+            Ok(())
+        })();
+        report(&format!("change-while-notifier-mutex-held-{}", mode), r);
+        let _ = &c.root;
+    }
+}
+
+/// one operation sequence; ops (comma separated): `P0|P1` persistent_watch, `F0|F1` set_fast_reload,
+/// `W` watch_path from outside, `R` request_reload + acquire, `A` acquire, `X+|X-` file change (+ = the
+/// model says the paths are watched: a notification must arrive; - = nothing is watching) + acquire.
+/// The change is the removal of one file: exactly ONE event that the closure accepts (no trailing
+/// events that would request further reloads later), so the creator calls are comparable, too.
+/// site `c` = the creator registers the path, `o` = it does not.
+/// prints `wfsseq\t<site>\t<ops>\t<X results>|C=<creator calls>`
+fn run_sequence(base: &Path, case_no: usize, site: &str, ops: &str) {
+    begin(&format!("lifetime-sequence {} {}", site, ops));
+    let in_creator = site == "c";
+    let c = make_case(base, case_no, move |n, w, _| {
+        if in_creator {
+            n.watch_path(w, true);
+        }
+    });
+    let names: Vec<String> = (1..=9).map(|k| format!("d{}.txt", k)).collect();
+    for n in &names {
+        fs::write(c.w.join(n), format!("content of {}", n)).unwrap();
+    }
+    let disk = |c: &Case| -> Vec<String> { names.iter().map(|n| fs::read_to_string(c.w.join(n)).unwrap_or_else(|_| "<none>".into())).collect() };
+    let envs = |c: &Case| -> Vec<String> {
+        let env = c.reloader.acquire_env().unwrap();
+        names
+            .iter()
+            .map(|n| match env.get_template(n) {
+                Ok(t) => t.render(()).unwrap_or_else(|e| format!("<render {:?}>", e.kind())),
+                Err(e) if e.kind() == ErrorKind::TemplateNotFound => "<none>".into(),
+                Err(e) => format!("<error {:?}>", e.kind()),
+            })
+            .collect()
+    };
+    let mut res: Vec<String> = vec![];
+    let mut problem: Option<String> = None;
+    if envs(&c) != disk(&c) {
+        problem = Some("first acquire does not reflect the disk".into());
+    }
+    let mut k = 0;
+    for op in ops.split(',') {
+        match op {
+            "P0" | "P1" => c.reloader.notifier().persistent_watch(op == "P1"),
+            "F0" | "F1" => c.reloader.notifier().set_fast_reload(op == "F1"),
+            "W" => c.reloader.notifier().watch_path(&c.w, true),
+            "A" => drop(envs(&c)),
+            "R" => {
+                c.reloader.notifier().request_reload();
+                if envs(&c) != disk(&c) && problem.is_none() {
+                    problem = Some("acquire after request_reload does not reflect the disk".into());
+                }
+            }
+            "X+" | "X-" => {
+                k += 1;
+                let n_before = c.notified.load(Ordering::SeqCst);
+                fs::remove_file(c.w.join(&names[(k - 1) % names.len()])).unwrap();
+                let must = op == "X+";
+                let got = wait_until(if must { MUST_MS } else { QUIET_MS }, || c.notified.load(Ordering::SeqCst) > n_before);
+                res.push(if got { "n".into() } else { "-".into() });
+                let (want, have) = (disk(&c), envs(&c));
+                if got && have != want && problem.is_none() {
+                    problem = Some(format!("change {}: notified but the next acquire does not reflect the disk env={:?} disk={:?}", k, have, want));
+                }
+            }
+            _ => problem = Some(format!("bad op {}", op)),
+        }
+    }
+    println!(
+        "wfsseq\t{}\t{}\t{}|C={}{}",
+        site,
+        ops,
+        res.join(""),
+        c.creates.load(Ordering::SeqCst),
+        problem.map(|p| format!("|problem={}", p)).unwrap_or_default()
+    );
 }
